@@ -81,6 +81,38 @@ theorem error_code_order (st : PState) (known : Bool) (v : JVal) (hwf : WF st.d)
       handleValue Cfg.repaired st known v = ({ st with calls := st.calls ++ [x] }, .ok)) :=
   handleValue_spec st known v hwf hj
 
+/-- **value_write_ignores_expression.** Whether the port follows a value expression plays no part in a value request
+(`PATCH /ports/{id}/value`): same answer, same driver call, whichever variant of the code — in particular an in-domain
+write to an enabled writable port that has an expression is accepted and delivered (`error_code_order` has no hypothesis
+on `hasExpression`). Only the sequence endpoint refuses such a port. -/
+theorem value_write_ignores_expression (cfg : Cfg) (st : PState) (known : Bool) (v : JVal) (b : Bool) :
+    (handleValue cfg { st with d := { st.d with hasExpression := b } } known v).2 = (handleValue cfg st known v).2 ∧
+    (handleValue cfg { st with d := { st.d with hasExpression := b } } known v).1.calls =
+      (handleValue cfg st known v).1.calls := by
+  have hval : validateValue cfg { st.d with hasExpression := b } v = validateValue cfg st.d v := rfl
+  have hpw : ∀ w, performWrite { st.d with hasExpression := b } w = performWrite st.d w := fun _ => rfl
+  simp only [handleValue, hval, hpw]
+  cases known <;> simp
+  cases validateValue cfg st.d v <;> simp
+  cases st.d.enabled <;> simp
+  cases st.d.writable <;> simp
+  rename_i w
+  cases performWrite st.d w <;> simp
+
+-- non-vacuity: 0.3 on the step-0.1 port that follows an expression is accepted and delivered (times two) …
+example : (step Cfg.repaired { d := { dStep with hasExpression := true } } (.value true (.num (3 / 10) false))).2 = .ok := by
+  decide +kernel
+example : (step Cfg.repaired { d := { dStep with hasExpression := true } } (.value true (.num (3 / 10) false))).1.calls
+    = [.num (3 / 5) false] := by decide +kernel
+-- … while a sequence of in-domain values is refused on that port, and accepted without the expression
+example : (step Cfg.repaired { d := { dStep with hasExpression := true } }
+    (.sequence true [.num (3 / 10) false] [.num 100 true] (.num 1 true))).2 = .err .portWithExpression := by decide +kernel
+example : (step Cfg.repaired { d := dStep }
+    (.sequence true [.num (3 / 10) false] [.num 100 true] (.num 1 true))).2 = .ok := by decide +kernel
+-- … after the disabled and read-only tests
+example : (step Cfg.repaired { d := { dStep with hasExpression := true, writable := false } }
+    (.sequence true [.num (3 / 10) false] [.num 100 true] (.num 1 true))).2 = .err .readOnlyPort := by decide +kernel
+
 -- non-vacuity: an out-of-domain value on a disabled read-only port is "invalid-value", an in-domain one "port-disabled"
 example : (handleValue Cfg.repaired { d := { dInt with enabled := false, writable := false } } true
     (.num 11 true)).2 = .err .invalidValue := by decide +kernel
@@ -149,10 +181,11 @@ example : (step Cfg.repaired { d := dInt } (.value true (.num 5 false))).1.calls
 
 /-! ### 5. sequence requests: the same validation for every element -/
 
-/-- **sequence_accept_iff.** A well-shaped sequence request is accepted iff the port exists, is enabled and writable
-and *every* value is in the port's domain; the error is fixed by the first failing condition in the order unknown port,
-shape, length mismatch, a value outside the domain (invalid-field), disabled, read-only; a refusal returns the state
-unchanged and an acceptance installs exactly the (adapted) values. -/
+/-- **sequence_accept_iff.** A well-shaped sequence request is accepted iff the port exists, is enabled and writable,
+follows no value expression and *every* value is in the port's domain; the error is fixed by the first failing condition
+in the order unknown port, shape, length mismatch, a value outside the domain (invalid-field), disabled, read-only, port
+with an expression (port-with-expression: a rule of the sequence endpoint only, see `value_write_ignores_expression`);
+a refusal returns the state unchanged and an acceptance installs exactly the (adapted) values. -/
 theorem sequence_accept_iff (st : PState) (known : Bool) (values delays : List JVal) (rep : JVal)
     (hwf : WF st.d) (hj : ∀ v, v ∈ values → v.isJson) :
     (known = false → handleSeq Cfg.repaired st known values delays rep = (st, .err .noSuchPort)) ∧
@@ -170,7 +203,10 @@ theorem sequence_accept_iff (st : PState) (known : Bool) (values delays : List J
       (∀ v, v ∈ values → InDomain st.d v) → st.d.enabled = true → st.d.writable = false →
       handleSeq Cfg.repaired st known values delays rep = (st, .err .readOnlyPort)) ∧
     (known = true → shapeOk Cfg.repaired values delays rep = true → values.length = delays.length →
-      (∀ v, v ∈ values → InDomain st.d v) → st.d.enabled = true → st.d.writable = true →
+      (∀ v, v ∈ values → InDomain st.d v) → st.d.enabled = true → st.d.writable = true → st.d.hasExpression = true →
+      handleSeq Cfg.repaired st known values delays rep = (st, .err .portWithExpression)) ∧
+    (known = true → shapeOk Cfg.repaired values delays rep = true → values.length = delays.length →
+      (∀ v, v ∈ values → InDomain st.d v) → st.d.enabled = true → st.d.writable = true → st.d.hasExpression = false →
       handleSeq Cfg.repaired st known values delays rep =
         ({ st with pend := passes st.now (delays.map delayMs).sum (values.map (adapt Cfg.repaired st.d))
                             (delays.map delayMs) (delayMs rep) }, .ok)) :=
